@@ -5,7 +5,7 @@ use anyhow::{anyhow, bail, Context, Result};
 use futures::{future::join_all, stream::FuturesUnordered, SinkExt, StreamExt};
 use log::{error, info};
 use quinn::{Connecting, Connection, Endpoint, IdleTimeout, VarInt};
-use selium_protocol::error_codes::INVALID_TOPIC_NAME;
+use selium_protocol::error_codes::{INVALID_TOPIC_NAME, TOPIC_PATTERN_MISMATCH};
 use selium_protocol::{error_codes, BiStream, ErrorPayload, Frame, TopicName};
 use selium_std::errors::SeliumError;
 use std::net::SocketAddr;
@@ -172,7 +172,7 @@ async fn handle_stream(
             use selium_protocol::error_codes::CLOUD_AUTH_FAILED;
 
             match do_cloud_auth(&_connection, topic, &topics).await {
-                Ok(_) => stream.send(Frame::Ok).await?,
+                Ok(_) => (),
                 Err(e) => {
                     debug!("Cloud authentication error: {e:?}");
 
@@ -198,7 +198,6 @@ async fn handle_stream(
                 stream.send(Frame::Error(payload)).await?;
                 return Ok(());
             }
-            stream.send(Frame::Ok).await?;
         }
 
         // Hold the lock only to look the topic up (or create it). The registration itself may have
@@ -229,6 +228,23 @@ async fn handle_stream(
 
             ts.get(topic).unwrap().clone()
         };
+
+        // The messaging pattern of a topic is fixed by its first registration: tell a peer that asks
+        // for the other one, rather than accepting the stream and then abandoning it
+        let wants_pubsub = matches!(
+            frame,
+            Frame::RegisterPublisher(_) | Frame::RegisterSubscriber(_)
+        );
+        if tx.is_pubsub() != wants_pubsub {
+            let payload = ErrorPayload {
+                code: TOPIC_PATTERN_MISMATCH,
+                message: "Topic is in use with a different messaging pattern".into(),
+            };
+            stream.send(Frame::Error(payload)).await?;
+            return Ok(());
+        }
+
+        stream.send(Frame::Ok).await?;
 
         match frame {
             Frame::RegisterPublisher(_) => {
